@@ -299,17 +299,32 @@ def run_scenario(spec: dict) -> dict:
     orig_tc_init, orig_ts_init = tcm.ThreadController.__init__, tcm.ThreadStatus.__init__
     ts_count = {"n": 0}
 
+    def role_events(obj, stems):
+        """the Event attributes of a control object by role, found by the stem of the attribute name (private names get
+        renamed); when the roles cannot be told apart the harness cannot drive this code: StubIncomplete"""
+        from harness.stub_incomplete import StubIncomplete
+        evs = {k: v for k, v in vars(obj).items() if isinstance(v, S.Event)}
+        out = {}
+        for role, stem in stems.items():
+            hit = [v for k, v in evs.items() if stem in k.lower()]
+            if len(hit) != 1 or len(evs) != len(stems):
+                raise StubIncomplete(f"cannot tell the events of {type(obj).__name__} apart: {sorted(evs)}")
+            out[role] = hit[0]
+        return out
+
     def tc_init(self):
         orig_tc_init(self)
-        self._shutdown_event.name = "shutdown"
-        self._resume_event.name = "resume"
+        ev = role_events(self, {"shutdown": "shut", "resume": "resum"})
+        ev["shutdown"].name = "shutdown"
+        ev["resume"].name = "resume"
 
     def ts_init(self):
         orig_ts_init(self)
         i = ts_count["n"]
         ts_count["n"] += 1
-        self._paused_event.name = f"paused{i}"
-        self._exception_event.name = f"exc{i}"
+        ev = role_events(self, {"paused": "paus", "exc": "exc"})
+        ev["paused"].name = f"paused{i}"
+        ev["exc"].name = f"exc{i}"
         self.pool_role = i
 
     tcm.ThreadController.__init__, tcm.ThreadStatus.__init__ = tc_init, ts_init
@@ -410,6 +425,8 @@ def run_scenario(spec: dict) -> dict:
         states = sorted(p.name for p in (Path(tmp) / "states").glob("*.state")) if (Path(tmp) / "states").exists() else []
         if not spec.get("states_root"):
             shutil.rmtree(tmp, ignore_errors=True)
+    if str(result.get("outcome") or "").startswith("error:StubIncomplete"):
+        result["error"] = str(result["outcome"])[len("error:"):]      # the harness could not drive this code (see harness/core.py)
     result.update({"trace": trace, "deadlock": None if sched.deadlock is None else str(sched.deadlock), "vtime": sched.now,
                    "choices": sched.choices, "states": states, "steps": state["steps"], "trains": state["trains"], "hidden": state.get("hidden")})
     return result
